@@ -50,20 +50,20 @@ Definition vdisc (vs : list (N * string)) (name : string) : N :=
 Definition v9_pnum (v : fval) : option N :=
   match v with
   | VProto d => if d =? vdisc proto_variants "Unknown" then None else Some (proto_to_u8 d)
-  | _ => fval_u8 v
+  | _ => fval_un 8 v
   end.
 Definition v9_upt (v : fval) : option N :=
   match v with
   | VDur secs nanos => let ms := secs * 1000 + nanos / 1000000 in if ms <? 2 ^ 32 then Some ms else None
-  | _ => fval_u32 v
+  | _ => fval_un 32 v
   end.
 Definition common_flow (vs : list (N * string)) (pnum upt : fval -> option N)
   (src4 src6 dst4 dst6 sport dport proto first last smac dmac : string) (rec : list (N * fval)) : cflow :=
   let g := fun name => get_last (vdisc vs name) rec in
   {| c_src := opt_bind (opt_or (g src4) (g src6)) fval_ip;
      c_dst := opt_bind (opt_or (g dst4) (g dst6)) fval_ip;
-     c_sport := opt_bind (g sport) fval_u16;
-     c_dport := opt_bind (g dport) fval_u16;
+     c_sport := opt_bind (g sport) (fval_un 16);
+     c_dport := opt_bind (g dport) (fval_un 16);
      c_pnum := opt_bind (g proto) pnum;
      c_ptype := option_map proto_from_u8 (opt_bind (g proto) pnum);
      c_first := opt_bind (g first) upt;
@@ -76,7 +76,7 @@ Definition v9_common_flow : list (N * fval) -> cflow :=
     "L4SrcPort" "L4DstPort" "Protocol" "FirstSwitched" "LastSwitched" "InSrcMac" "InDstMac".
 
 Definition ipfix_common_flow : list (N * fval) -> cflow :=
-  common_flow ipfix_variants fval_u8 fval_u32 "SourceIpv4address" "SourceIpv6address"
+  common_flow ipfix_variants (fval_un 8) (fval_un 32) "SourceIpv4address" "SourceIpv6address"
     "DestinationIpv4address" "DestinationIpv6address"
     "SourceTransportPort" "DestinationTransportPort" "ProtocolIdentifier"
     "FlowStartSysUpTime" "FlowEndSysUpTime" "SourceMacaddress" "DestinationMacaddress".
